@@ -97,10 +97,66 @@ def restore_all() -> None:
                 pass
 
 
+MOVED_NOTES: List[str] = []
+_DEFS: Optional[Dict[str, List[str]]] = None
+
+
+def _definitions() -> Dict[str, List[str]]:
+    """top-level class / function name -> modules of the tree under check that define it (static scan, no import)"""
+    global _DEFS
+    if _DEFS is None:
+        import os
+        from . import alpha
+        src = os.path.join(instrument.repo_root(), "src")
+        _DEFS = {}
+        for rel, m in alpha.scan_tree(src)["modules"].items():
+            mod = rel[:-3].replace(os.sep, ".")
+            if mod.endswith(".__init__"):
+                mod = mod[:-9]
+            for n in list(m["classes"]) + list(m["functions"]):
+                _DEFS.setdefault(n, []).append(mod)
+    return _DEFS
+
+
+class _ModProxy:
+    """a jasm module as the contracts address it.  A class or function that has been MOVED to another module of the tree (and is
+    not re-exported from its old module) is looked up where it is defined now -- when exactly one module defines that name."""
+
+    def __init__(self, mod):
+        object.__setattr__(self, "_m", mod)
+
+    def __getattr__(self, n):
+        m = object.__getattribute__(self, "_m")
+        try:
+            return getattr(m, n)
+        except AttributeError:
+            from . import alpha
+            ren, _ = alpha.renames_for(__import__("os").path.join(instrument.repo_root(), "src"))
+            inv = {o: nw for nw, o in ren.items()}
+            cands = _definitions().get(inv.get(n, n), [])
+            if len(cands) == 1 and cands[0] != m.__name__:
+                other = importlib.import_module(cands[0])
+                _snapshot_new_modules()
+                note = f"{n} is read from {cands[0]} (moved out of {m.__name__})"
+                if note not in MOVED_NOTES:
+                    MOVED_NOTES.append(note)
+                return getattr(other, n)
+            raise
+
+    def __setattr__(self, n, v):
+        setattr(object.__getattribute__(self, "_m"), n, v)
+
+    def __delattr__(self, n):
+        delattr(object.__getattribute__(self, "_m"), n)
+
+    def __repr__(self):
+        return f"<contract view of {object.__getattribute__(self, '_m').__name__}>"
+
+
 class _Lazy:
     def __getattr__(self, name):
         if name in MODS:
-            m = importlib.import_module(MODS[name])
+            m = _ModProxy(importlib.import_module(MODS[name]))
             setattr(self, name, m)
             _snapshot_new_modules()
             return m
@@ -170,3 +226,51 @@ def node_data(name, times, children, shared_context=None):
 def set_flags(fm: bool, fo: bool):
     """the real singleton, loaded through the real loader"""
     J.gd.JASMConfig.get_instance().load_config({"mnemonics-full-match": fm, "operands-full-match": fo})
+
+
+# --------------------------------------------------------------------------- a function wherever it lives now
+def holders_of(name: str, modkeys: List[str]) -> List[Any]:
+    """the objects (module proxies / classes) of the given jasm modules that carry a callable attribute `name`: a helper may be a
+    static method of a class in one tree and a module-level function in another"""
+    out: List[Any] = []
+    for mk in modkeys:
+        m = getattr(J, mk)
+        real = object.__getattribute__(m, "_m")
+        if callable(vars(real).get(name)):
+            out.append(m)
+        for v in list(vars(real).values()):
+            if isinstance(v, type) and getattr(v, "__module__", "") == real.__name__ and name in vars(v):
+                out.append(v)
+    return out
+
+
+def find_callable(name: str, modkeys: List[str]):
+    hs = holders_of(name, modkeys)
+    if not hs:
+        raise pyvc.Unsupported(f"the contract does not fit the tree: no function named {name} in {modkeys}")
+    return getattr(hs[0], name)
+
+
+def patch_all(name: str, stub, modkeys: List[str]) -> None:
+    """install `stub` under `name` in every holder (as a staticmethod on classes); undone by restore_all() after the scenario"""
+    hs = holders_of(name, modkeys)
+    if not hs:
+        raise pyvc.Unsupported(f"the contract does not fit the tree: no function named {name} in {modkeys}")
+    for h in hs:
+        setattr(h, name, staticmethod(stub) if isinstance(h, type) else stub)
+
+
+class NullLog:
+    """stand-in for the jasm logger inside a scenario: every logging call is a no-op (what is logged is not what is done);
+    nothing is formatted, so symbolic arguments are never rendered"""
+
+    def isEnabledFor(self, level):
+        return False
+
+    def getEffectiveLevel(self):
+        return 100
+
+    def __getattr__(self, name):
+        if name.startswith("__"):
+            raise AttributeError(name)
+        return lambda *a, **k: None
